@@ -134,7 +134,8 @@ Definition I_req (s : State) : Prop :=
        /\ 0 <= rid_index r < c_breq rc
        /\ rid_height r < r_exp q
        /\ has (r_prov q) (owner_of s) = true
-       /\ has (c_svc rc, r_prov q) (binds s) = true)
+       /\ has (c_svc rc, r_prov q) (binds s) = true
+       /\ (c_super rc = true -> r_fee q = 0))
   /\ (forall r x, In (r, x) (resps s) ->
         exists q, get r (reqs s) = Some q /\ r_active q = false)
   /\ (forall c rc, get c (ctxs s) = Some rc ->
